@@ -2,11 +2,20 @@
 """prints the prompt for a blind mutant-writing sub-agent: property text + worktree only"""
 import json, sys
 pid = sys.argv[1]; n = sys.argv[2] if len(sys.argv) > 2 else "3"
+wave = sys.argv[3] if len(sys.argv) > 3 else ""
+import glob, os
+avoid = ""
+if wave:
+    ideas = []
+    for m in sorted(glob.glob('/verif/seeded/%s-*/meta.json' % pid)):
+        ideas.append("  - " + json.load(open(m)).get("summary", "")[:300])
+    if ideas:
+        avoid = "\nAn earlier round already produced the following changes for this property; do NOT repeat these ideas or close variants of them (choose other code sites and other mechanisms):\n" + "\n".join(ideas) + "\n"
 for l in open('/verif/properties.jsonl'):
     p = json.loads(l)
     if p['id'] == pid:
         break
-print(f"""You are helping to evaluate a verification tool for the Go project graphite-ng/carbon-relay-ng (a Graphite carbon metrics relay). You have your own scratch git worktree of the project at /tmp/mut-{pid} . Work ONLY inside /tmp/mut-{pid} and your output directory /tmp/mutout-{pid}/ ; do not read or touch /repo, /verif or any other directory (apart from the Go toolchain / module cache for reading dependency sources).
+print(f"""You are helping to evaluate a verification tool for the Go project graphite-ng/carbon-relay-ng (a Graphite carbon metrics relay). You have your own scratch git worktree of the project at /tmp/mut{wave}-{pid} . Work ONLY inside /tmp/mut{wave}-{pid} and your output directory /tmp/mutout{wave}-{pid}/ ; do not read or touch /repo, /verif or any other directory (apart from the Go toolchain / module cache for reading dependency sources).
 
 The property (this is all you are given):
 
@@ -16,13 +25,14 @@ The property (this is all you are given):
 
 Task: produce {n} independent, realistic changes to the project's source, each of which BREAKS this property while the project still compiles and its existing test suite still passes unchanged. Think of plausible regressions a maintainer could introduce in a refactoring, optimisation or bug-fix gone slightly wrong. Prefer changes that need something specific to manifest — a particular interleaving, a crash or fault at a particular point, a multi-step sequence of operations, an unusual input or configuration value, or two cooperating sites that each look fine alone — NOT ones that ordinary use would expose at once (not "always drop everything"). Make the {n} changes different in kind from one another (different mechanism / different code site).
 
+{avoid}
 Rules
 * Every shell call: export GOFLAGS=-mod=mod GOPROXY=off GOSUMDB=off GOTOOLCHAIN=local  (offline sandbox; nothing can be downloaded).
 * The change must compile (`go build ./...` and `go build -tags verif ./...`) and `go test -vet=off -count=1 ./...` in the worktree must still pass with the change applied (the existing tests, unedited).
 * Do not edit *_test.go files, files named verif_hook_*.go, or lines calling verifPoint(...) / verifCrashPoint(...) (test instrumentation; leave as is). Do not change exported function signatures or struct field names.
-* For each change k = 1..{n} write into /tmp/mutout-{pid}/<k>/ :
+* For each change k = 1..{n} write into /tmp/mutout{wave}-{pid}/<k>/ :
     - patch.diff   : `git diff` of the change against the worktree HEAD (must apply with `git apply` on a clean tree)
     - a demonstration: a Go test file (say demo_test.go, with a comment at the top saying into which package directory it has to be copied and the exact `go test -run ... ` command) or a small program, that FAILS (or shows the violation) with the change applied and PASSES on the unchanged tree. Actually run both and record the outputs in demo_output.txt.
     - meta.json    : {{"property": "{pid}", "summary": "...one line...", "needs_to_manifest": "...what specific condition triggers it...", "files_touched": [...], "demo_cmd": "..."}}
-* Between changes reset the worktree: git -C /tmp/mut-{pid} checkout -- . && git -C /tmp/mut-{pid} clean -fdq . Leave the worktree clean at the end.
+* Between changes reset the worktree: git -C /tmp/mut{wave}-{pid} checkout -- . && git -C /tmp/mut{wave}-{pid} clean -fdq . Leave the worktree clean at the end.
 * Final message: for each change, one paragraph: what it is, why it breaks the property, what it needs to manifest, and confirmation that build + existing tests pass and the demo fails-with / passes-without.""")
